@@ -184,6 +184,36 @@ def all_sources():
     return [s for s, _ in compile_db()]
 
 
+def extra_unit(name, ctext, mode='m2r'):
+    """compile a small C text against the repo headers (inc/, src/) into a unit: used to give header-only inline functions an IR"""
+    key = ('<extra>' + name, mode)
+    if key in _jcache:
+        return _jcache[key]
+    ensure_irdump()
+    wd = os.path.join(workdir(), 'extra')
+    os.makedirs(wd, exist_ok=True)
+    c = os.path.join(wd, name + '.c')
+    with open(c, 'w') as f:
+        f.write(ctext)
+    ll, js = os.path.join(wd, name + '.ll'), os.path.join(wd, name + '.json')
+    p = subprocess.run(['clang', '-g', '-S', '-emit-llvm', '-w', '-O0', '-Xclang', '-disable-O0-optnone', '-I' + os.path.join(REPO, 'inc'),
+                        '-I' + os.path.join(REPO, 'src'), c, '-o', ll + '.raw'], capture_output=True, text=True)
+    if p.returncode:
+        raise AnalysisBroken('extra unit %s does not compile: %s' % (name, p.stderr[-400:]))
+    p = subprocess.run(['opt-14', '-S', '-passes=mem2reg', ll + '.raw', '-o', ll], capture_output=True, text=True)
+    if p.returncode:
+        raise AnalysisBroken('opt failed on extra unit %s' % name)
+    with open(js, 'w') as f:
+        p = subprocess.run([IRDUMP, ll], stdout=f, stderr=subprocess.PIPE, text=True)
+    if p.returncode:
+        raise AnalysisBroken('irdump failed on extra unit %s' % name)
+    d = json.load(open(js))
+    d['_ll'] = ll
+    d['_src'] = '<extra>' + name
+    _jcache[key] = d
+    return d
+
+
 def repo_head():
     try:
         return subprocess.run(['git', '-C', REPO, 'rev-parse', 'HEAD'], capture_output=True, text=True).stdout.strip()
